@@ -75,10 +75,37 @@ class Folder:
                 for i, x in enumerate(arg.elts):
                     if i:
                         out += sep
-                    out += self.fold(rel, x, f, depth + 1)
+                    out += [Hole(x.value)] if isinstance(x, ast.Starred) else self.fold(rel, x, f, depth + 1)
                 return self._merge(out)
+            if isinstance(arg, (ast.ListComp, ast.GeneratorExp)) and len(arg.generators) == 1 and not arg.generators[0].ifs and isinstance(arg.generators[0].target, ast.Name):
+                # sep.join([A + x + B for x in [c1, *user]]): one rendering of the element per item,
+                # a starred (unknown-length) item stands for itself once
+                src = arg.generators[0].iter
+                if isinstance(src, ast.Name):
+                    src = self._local_value(f, src.id)
+                if isinstance(src, (ast.List, ast.Tuple)):
+                    var = arg.generators[0].target.id
+                    bind = getattr(self, "_bind", None)
+                    if bind is None:
+                        bind = self._bind = {}
+                    out = []
+                    for i, x in enumerate(src.elts):
+                        if i:
+                            out += sep
+                        saved = bind.get(var)
+                        bind[var] = [Hole(x.value)] if isinstance(x, ast.Starred) else self.fold(rel, x, f, depth + 1)
+                        try:
+                            out += self.fold(rel, arg.elt, f, depth + 1)
+                        finally:
+                            if saved is None:
+                                bind.pop(var, None)
+                            else:
+                                bind[var] = saved
+                    return self._merge(out)
             return [Hole(e)]
         if isinstance(e, ast.Name):
+            if e.id in getattr(self, "_bind", {}):
+                return list(self._bind[e.id])
             v = self._local_value(f, e.id) if f else None
             if v is None:
                 v = self.m.consts.get(rel, {}).get(e.id)
@@ -91,7 +118,7 @@ class Folder:
                             rel = mrel
             if v is not None and not isinstance(v, ast.Name):
                 r = self.fold(rel, v, f, depth + 1)
-                if not any(isinstance(x, Hole) for x in r):
+                if not any(isinstance(x, Hole) for x in r) or (isinstance(v, ast.Call) and isinstance(v.func, ast.Attribute) and v.func.attr == "join"):
                     return r
             return [Hole(e)]
         return [Hole(e)]
